@@ -60,6 +60,12 @@ known("C03-lv-range-const-rev", "lv-range-const-rev",
       [[("expr", ("asg", L(A), Arr([I(10)]))), ("expr", ("asg", ("rng", False, True, L(A), I(1), I(0)), Arr([I(7)]))), ("ret", L(A))],
        [("expr", ("asg", L(A), Arr([I(10)]))), ("expr", ("asg", L(B), I(0))), ("expr", ("asg", ("rng", False, True, L(A), I(1), L(B)), Arr([I(7)]))), ("ret", L(A))]])
 
+known("C03-zero-minus-neg", "zero-minus-neg",
+      "`0 - x` is rewritten to `-x` by the grammar: for x = 0.0 the result is -0.0 while the difference computed from two "
+      "variables is +0.0 (sign of zero only; the values compare equal)",
+      [[("expr", ("asg", L(LX), Fl(0.0))), ("ret", ("bin", "sub", I(0), L(LX)))],
+       [("expr", ("asg", L(A), Fl(0.0))), ("expr", ("asg", L(B), I(0))), ("ret", ("bin", "sub", L(B), L(A)))]])
+
 out = os.path.join(os.path.dirname(os.path.dirname(os.path.abspath(__file__))), "known", "C03.jsonl")
 with open(out, "w") as f:
     for k in K:
